@@ -4,10 +4,10 @@ use std::{collections::HashMap, io::Write};
 macro_rules! write {
     ($out:expr, $msg:expr ) => {
         // :3
-        let _ = $out.write($msg.as_ref());
+        let _ = $out.write_all($msg.as_ref());
     };
     ($out:expr, $( $msg:expr ),+ ) => {
-        let _ = $out.write(format!($( $msg ),*).as_ref());
+        let _ = $out.write_all(format!($( $msg ),*).as_ref());
     };
 }
 
